@@ -152,7 +152,27 @@ func (s *VerifSim) fetch(broker int32, req *FetchRequest) (encoderWithHeader, bo
 func (s *VerifSim) listOffsets(broker int32, req *OffsetRequest) encoderWithHeader {
 	s.mu.Lock()
 	defer s.mu.Unlock()
+	s.offsetN++
+	fault := ErrNoError
+	if s.OffsetFault != nil {
+		fault = s.OffsetFault(s.offsetN)
+	}
 	res := &OffsetResponse{Version: req.Version}
+	if fault != ErrNoError {
+		// the n-th ListOffsets request is answered with this error code for every partition it names
+		for t, parts := range req.blocks {
+			for p := range parts {
+				if res.Blocks == nil {
+					res.Blocks = map[string]map[int32]*OffsetResponseBlock{}
+				}
+				if res.Blocks[t] == nil {
+					res.Blocks[t] = map[int32]*OffsetResponseBlock{}
+				}
+				res.Blocks[t][p] = &OffsetResponseBlock{Err: fault}
+			}
+		}
+		return res
+	}
 	for t, parts := range req.blocks {
 		for p, b := range parts {
 			log := s.logs[tpKey(t, p)]
